@@ -19,6 +19,60 @@ NONINC = ["vi-search-forward", "vi-search-backward", "vi-search-again-forward", 
           "non-incremental-forward-search-history", "non-incremental-reverse-search-history"]
 
 
+def multi_source_cases(rng, n, tag="c09m"):
+    """several history sources with different entries: the user makes another one the active one (history-source-next / -prev through
+    private binds; C-r / C-s asked for again while the search is shown goes on in the next source) and walks / searches there;
+    between calls the application deletes or adds sources.  Which source is in use follows HistSourcesOps."""
+    binds, seqs = private_binds(["history-source-next", "history-source-prev"])
+    nxt, prv = seqs["history-source-next"], seqs["history-source-prev"]
+    POOLS = [["a1", "a2", "a3 x"], ["b1", "b2 x"], ["c1"], [], ["a1", "shared", "d3"], ["shared"]]
+    WALK = [b"\x10", b"\x10", b"\x0e", b"\x1b<", b"\x1b>", b"\x10\x10", b"\x1b[A", b"\x1b[B"]
+    cases = []
+    for ci in range(n):
+        k = 2 + ci % 2
+        srcs = [{"name": ["main", "second", "third"][j], "kind": "mem", "lines": list(rng.choice(POOLS))} for j in range(k)]
+        cs = {"id": "%s-%d" % (tag, ci), "inputrc": "", "w": 80, "h": 24, "prompt": "> ", "binds": binds, "sources": srcs, "histsnap": True,
+              "sessions": [], "preacts": []}
+        for si in range(5):
+            acts = []
+            if si and rng.random() < 0.4:
+                r = rng.random()
+                if r < 0.5:
+                    acts.append({"k": "histdel", "s": rng.choice(["main", "second", "third"][:k])})
+                elif r < 0.65:
+                    acts.append({"k": "histdelall"})
+                else:
+                    acts.append({"k": "histadd", "s": rng.choice(["extra", "second"]), "h": "e1|e2 x"})
+            cs["preacts"].append(acts)
+            sess = []
+            ip = rng.choice(["", "", "x", "a", "b2"])
+            if ip:
+                sess.append(keys(ip))
+            for _ in range(rng.randint(2, 7)):
+                r = rng.random()
+                if r < 0.35:
+                    sess.append(keys(rng.choice([nxt, nxt, prv])))
+                elif r < 0.85:
+                    sess.append(keys(rng.choice(WALK)))
+                else:
+                    # an incremental search, asked for again once or twice (goes on in the next source), then left
+                    sess.append(keys(rng.choice([b"\x12", b"\x13"])))
+                    for _ in range(rng.randint(0, 2)):
+                        sess.append(keys(rng.choice([b"\x12", b"x", b"1"])))
+                    sess.append(keys(rng.choice([b"\x07", b"\x07", b"\r"])))
+            sess.append(keys(b"\r"))
+            cs["sessions"].append(sess)
+        cases.append(cs)
+    return cases
+
+
+FAM_SPEC = ("HistoryTrace", "HistoryTrace.cfg")
+
+
+def project(cs, evs):
+    return histproj.project(cs, evs, -1)
+
+
 def search_cases(tier, rng, tag="c09v"):
     """non-incremental searches: the search text is typed in a minibuffer and Enter runs the search (vi / ? are not bound by
     default: they are bound here), then the search is repeated with the same text (n, N, ...), forward and backward, with texts
@@ -156,6 +210,7 @@ def run(rep, tier, seed):
             cs["sessions"].append(sess)
         cases.append(cs)
     cases += search_cases(tier, rng)
+    cases += multi_source_cases(random.Random(seed * 53 + 9), 60 if tier == "quick" else 1200)
     log("C09: %d scripts in %d cases" % (len(scripts), len(cases)))
 
     def proj(cs, evs):
